@@ -140,6 +140,7 @@ pub fn run(run: &mut Run) {
     let thorough = run.thorough();
     let mut sel = Sel::standard(thorough);
     sel.counters = true;
+    sel.clocks = true;
     sel.ray = None;
     run_universes(run, &sel, DISAGREE, &check_pos);
     spawn_release_leg(run, "release-configuration leg");
